@@ -294,7 +294,7 @@ def _s6_waiters(vc):
                         'kopf._cogs.aiokits.aioenums.FlagWaiter.is_set', 'kopf._cogs.aiokits.aioenums.FlagWaiter.reason',
                         'kopf._cogs.aiokits.aioenums.SyncFlagWaiter.wait', 'kopf._cogs.aiokits.aioenums.AsyncFlagWaiter.wait',
                         'kopf._cogs.aiokits.aioenums.AsyncFlagPromise.__await__'],
-         props=['C09', 'C10', 'C20', 'C13'],
+         props=['C09', 'C10', 'C20', 'C13', 'C06'],
          clauses=['fresh_is_unset', 'is_set_any_vs_specific', 'is_set_is_pure', 'set_raises_both_events', 'first_set_time_kept',
                   'reasons_accumulate', 'never_cleared', 'waiters_reflect_setter', 'sync_wait_blocks_on_the_event',
                   'async_wait_returns_waiter'],
@@ -1332,7 +1332,7 @@ def _s5_all_tasks(vc):
 @harness('S5', targets=['kopf._cogs.aiokits.aiotasks.Scheduler.__init__', 'kopf._cogs.aiokits.aiotasks.Scheduler.empty',
                         'kopf._cogs.aiokits.aiotasks.Scheduler.wait', 'kopf._cogs.aiokits.aiotasks.Scheduler.close',
                         'kopf._cogs.aiokits.aiotasks.all_tasks'],
-         props=['C01', 'C20'],
+         props=['C01', 'C20', 'C09'],
          clause_props={'all_tasks.all_but_current_and_ignored': ['C20']},
          clauses=['init.open_empty_configured', 'init.two_helper_tasks', 'empty_iff_nothing_pending_nothing_running',
                   'wait.on_own_condition_under_lock', 'wait.returns_only_when_empty', 'wait.cancellable',
@@ -1548,7 +1548,7 @@ def _p3_touch_command(vc):
 
 
 @harness('P3', targets=['kopf._core.engines.peering.detect_own_id', 'kopf._core.engines.peering.guess_selectors',
-                        'kopf._core.engines.peering.touch_command'], props=['C13'],
+                        'kopf._core.engines.peering.touch_command'], props=['C13', 'C19'],
          clauses=['own_id.pod_id_wins', 'own_id.manual_is_stable_user_at_host', 'own_id.operator_id_unique_per_start',
                   'selectors.standalone_has_none', 'selectors.cluster_vs_namespaced', 'selectors.both_api_groups',
                   'command.waits_for_discovery', 'command.fails_without_peering_resource', 'command.one_touch_per_peering_object',
@@ -1906,7 +1906,7 @@ def _o1u_set(vc):
 @harness('O1u', targets=['kopf._cogs.aiokits.aiotoggles.Toggle.__init__', 'kopf._cogs.aiokits.aiotoggles.Toggle.is_on',
                          'kopf._cogs.aiokits.aiotoggles.Toggle.is_off', 'kopf._cogs.aiokits.aiotoggles.Toggle.turn_to',
                          'kopf._cogs.aiokits.aiotoggles.Toggle.wait_for', 'kopf._cogs.aiokits.aiotoggles.ToggleSet.wait_for'],
-         props=['C13', 'C17', 'C09', 'C19'],
+         props=['C13', 'C17', 'C09', 'C19', 'C01', 'C03', 'C14'],
          clauses=['toggle.init', 'toggle.is_on_is_off', 'turn_to.sets_state', 'turn_to.notifies_under_lock', 'wait_for.on_own_condition_under_lock',
                   'wait_for.returns_only_in_wanted_state', 'wait_for.no_wait_when_already_there',
                   'set_wait_for.returns_only_in_wanted_aggregate'],
